@@ -54,7 +54,11 @@ Definition model_foreign (w : world) : list (N * N) :=
   map (fun f => (match f_name f with NForeign k => k | _ => 0%N end, f_mode f)) (foreign_files (files w)).
 Definition obs_reading (o : sobs) : list N := concat (map fo_data (o_files o)).
 
-Definition opkind (o : op) : N := match o with Write _ _ _ _ _ _ _ _ => 1 | Reopen _ => 2 | ExtRename _ => 3 | Pause _ => 4 end%N.
+Definition opkind (x : xop) : N :=
+  match x with
+  | XOp (Write _ _ _ _ _ _ _ _) => 1 | XOp (Reopen _) => 2 | XOp (ExtRename _) => 3 | XOp (Pause _) => 4
+  | XRmDir _ => 5 | XRmActive _ => 6
+  end%N.
 
 Definition check_model (w : world) (ok : bool) (o : sobs) : list kind :=
   (if Bool.eqb ok (o_ok o) then [] else [KOk]) ++
@@ -84,22 +88,27 @@ Section Case.
   Variable dm0 : option N.
 
   (* the properties evaluated on the observations alone *)
-  Definition oracle (o : op) (ackd : list N) (nren : N) (ob : sobs) : list kind :=
+  (* [removed]: somebody has deleted the directory / the active file earlier in this history.  From then on the statement of
+     C08 is not evaluated (external deletion is outside its quantifier: acknowledged events are simply gone) *)
+  Definition oracle (removed dirgone : bool) (o : op) (ackd : list N) (nren : N) (ob : sobs) : list kind :=
     let r := obs_reading ob in
     (if memN 0%N r then [KTorn] else []) ++
-    (if N.eqb writers 0 then
+    (if removed then [] else if N.eqb writers 0 then
        (if special c || is_suffix r ackd then [] else [KSuffix]) ++
        (if negb (special c) && N.eqb (maxFiles c) 0 && negb (eqNl r ackd) then [KLoss] else [])
      else (if forallb (fun x => N.eqb x 0 || known_writer writers x) r && writers_ok false r 0 counts then [] else [KOrder]) ++
           (if N.eqb (maxFiles c) 0 && negb (writers_ok true r 0 counts) then [KLoss] else [])) ++
     (if forallb (fun f => N.eqb (fo_mode f) (eff_mode c)) (o_files ob) then [] else [KModeSpec]) ++
-    (match dm0 with None => if N.eqb (o_dir ob) 0 || N.eqb (o_dir ob) dirMode then [] else [KDirSpec] | Some _ => [] end) ++
+    (match dm0, dirgone with
+     | Some _, false => []
+     | _, _ => if N.eqb (o_dir ob) 0 || N.eqb (o_dir ob) dirMode then [] else [KDirSpec]   (* the sink made (or re-made) it *)
+     end) ++
     (let has_plain := existsb (fun f => N.eqb (fo_kind f) 2) (o_files ob) in
      (* a successful Reopen leaves the plain name in place; so does a successful Process unless somebody has renamed the
         active file away since (the descriptor follows the renamed file until the next Reopen or rotation) *)
      let sink_call := match o with Reopen _ => o_ok ob | Write _ _ _ _ _ _ _ _ => o_ok ob && N.eqb nren 0 | _ => false end in
      if special c then (match o_files ob with [] => [] | _ => [KActive] end)
-     else if tsOnly c || negb (rotateEnabled c) then (if sink_call && negb has_plain then [KActive] else [])
+     else if tsOnly c || negb (rotateEnabled c) then (if sink_call && negb removed && negb has_plain then [KActive] else [])
      else (if has_plain then [KActive] else [])) ++
     (if existsb (fun f => N.eqb (fo_kind f) 9) (o_files ob) then [KStray] else []) ++
     (if (maxBytes c <=? 0) && (maxDur c <=? 0) &&
@@ -109,22 +118,25 @@ Section Case.
 
   (* [div]: the model has already disagreed with the implementation earlier in this history; from then on only the
      observation-only oracles are evaluated *)
-  Fixpoint run_case (div : bool) (w : world) (ackd : list N) (nren : N) (i : N) (steps : list (op * option sobs))
+  Fixpoint run_case (div removed dirgone : bool) (w : world) (ackd : list N) (nren : N) (i : N) (steps : list (xop * option sobs))
     : list (N * N * kind) :=
     match steps with
     | [] => []
-    | (o, ob) :: rest =>
-        let '(w', ok, _) := step3 c w o in
-        let nren' := match o with ExtRename _ => N.succ nren | _ => nren end in
+    | (x, ob) :: rest =>
+        let '(w', ok, _) := xstep3 c w x in
+        let o := xop_clock x in
+        let nren' := match x with XOp (ExtRename _) => N.succ nren | _ => nren end in
+        let removed' := match x with XOp _ => removed | _ => true end in
+        let dirgone' := match x with XRmDir _ => true | _ => dirgone end in
         match ob with
         | None =>
             let ackd' := match o with Write id _ _ _ _ _ _ _ => if ok then ackd ++ [id] else ackd | _ => ackd end in
-            run_case div w' ackd' nren' (N.succ i) rest
+            run_case div removed' dirgone' w' ackd' nren' (N.succ i) rest
         | Some ob =>
             let ackd' := match o with Write id _ _ _ _ _ _ _ => if o_ok ob then ackd ++ [id] else ackd | _ => ackd end in
             let mm := if div then [] else check_model w' ok ob in
-            map (fun k => (i, opkind o, k)) (mm ++ oracle o ackd' nren' ob)
-            ++ run_case (div || nonempty mm) w' ackd' nren' (N.succ i) rest
+            map (fun k => (i, opkind x, k)) (mm ++ oracle removed' dirgone' o ackd' nren' ob)
+            ++ run_case (div || nonempty mm) removed' dirgone' w' ackd' nren' (N.succ i) rest
         end
     end.
 End Case.
@@ -133,11 +145,11 @@ Record fcase := {
   c_id : N; c_cfg : cfg; c_fids : list N; c_dm : option N; c_k0 : Z;
   c_writers : N; c_counts : list (list N);
   c_model : bool;                         (* false: only the observation-only oracles are evaluated *)
-  c_steps : list (op * option sobs)
+  c_steps : list (xop * option sobs)
 }.
 Definition mismatches (cs : list fcase) : list (N * (N * N * kind)) :=
   flat_map (fun k => map (fun m => (c_id k, m))
-     (run_case (c_cfg k) (c_writers k) (c_counts k) (c_dm k) (negb (c_model k)) (w_init (c_fids k) (c_dm k) (c_k0 k)) [] 0%N 0%N (c_steps k))) cs.
+     (run_case (c_cfg k) (c_writers k) (c_counts k) (c_dm k) (negb (c_model k)) false false (w_init (c_fids k) (c_dm k) (c_k0 k)) [] 0%N 0%N (c_steps k))) cs.
 
 (* ---- coverage vector: which branches of the model the cases reached (for the evidence) ---- *)
 Record cov := { v_steps : N; v_rot : N; v_rot_size : N; v_rot_time : N; v_rot_fail : N; v_pruned : N;
@@ -158,8 +170,12 @@ Definition cov_step (c : cfg) (w : world) (o : op) (a : cov) : cov :=
         b2n (match o with Reopen _ => negb (special c) && has_name (newFileName c 0) (files w) | _ => false end);
      v_extren := v_extren a + b2n (match o with ExtRename _ => match active_file w with Some _ => true | None => false end | _ => false end);
      v_clock_ok := v_clock_ok a; v_cases := v_cases a |}%N.
-Fixpoint cov_ops (c : cfg) (w : world) (ops : list op) (a : cov) : cov :=
-  match ops with [] => a | o :: r => cov_ops c (step c w o) r (cov_step c w o a) end.
+Fixpoint cov_ops (c : cfg) (w : world) (ops : list xop) (a : cov) : cov :=
+  match ops with
+  | [] => a
+  | XOp o :: r => cov_ops c (step c w o) r (cov_step c w o a)
+  | x :: r => cov_ops c (xstep c w x) r a
+  end.
 Definition cov_list (a : cov) : list N :=
   [v_cases a; v_steps a; v_rot a; v_rot_size a; v_rot_time a; v_rot_fail a; v_pruned a; v_open_existing a; v_extren a; v_clock_ok a].
 Definition coverage (cs : list fcase) : list N :=
@@ -167,7 +183,7 @@ Definition coverage (cs : list fcase) : list N :=
     let a1 := cov_ops (c_cfg k) (w_init (c_fids k) (c_dm k) (c_k0 k)) (map fst (c_steps k)) a in
     {| v_steps := v_steps a1; v_rot := v_rot a1; v_rot_size := v_rot_size a1; v_rot_time := v_rot_time a1; v_rot_fail := v_rot_fail a1;
        v_pruned := v_pruned a1; v_open_existing := v_open_existing a1; v_extren := v_extren a1;
-       v_clock_ok := (v_clock_ok a1 + b2n (clock_okb (c_k0 k) (map fst (c_steps k))))%N; v_cases := (v_cases a1 + 1)%N |}) cs cov0).
+       v_clock_ok := (v_clock_ok a1 + b2n (clock_okb (c_k0 k) (map (fun s => xop_clock (fst s)) (c_steps k))))%N; v_cases := (v_cases a1 + 1)%N |}) cs cov0).
 
 (* ---- SIGKILL cases: the child wrote events 1, 2, 3, … (event i has [nth (i-1) k_sizes] bytes) one after the other and
    acknowledged each on a pipe after Process returned; it was killed at an arbitrary instant.  [k_acks] acknowledgements
@@ -225,3 +241,14 @@ Definition kill_position (k : kcase) : N :=
   | [] => 999%N
   end.
 Definition kill_positions (ks : list kcase) : list N := map kill_position ks.
+
+(* ---- failing write(2): a child whose files may not grow beyond RLIMIT_FSIZE processed events 1, 2, 3, …; [l_acked] are the
+   ones whose Process returned nil.  Whatever fails: every acknowledged event is in the files, whole, once, in order (no
+   retention limit in these cases), and nothing else is, apart from bytes that are not a whole event (chunk 0: what a failed
+   attempt may leave behind — FileSinkProofs.write_ack_present, retry_leaves_partial). ---- *)
+Record lcase := { l_id : N; l_cfg : cfg; l_acked : list N; l_failed : N; l_files : list fobs }.
+Definition fsize_check (l : lcase) : list kind :=
+  let r := filter (fun x => negb (N.eqb x 0)) (concat (map fo_data (l_files l))) in
+  if eqNl r (l_acked l) then [] else [KLoss].
+Definition fsize_mismatches (ls : list lcase) : list (N * (N * N * kind)) :=
+  flat_map (fun l => map (fun m => (l_id l, (0%N, 1%N, m))) (fsize_check l)) ls.
